@@ -141,10 +141,36 @@ func vPtrJoin(ptr, tok string) string {
 type vPair struct{ a, b vNodeID }
 
 type vBisim struct {
-	in, out *vWorld
-	seen    map[vPair]bool
-	steps   int
-	why     string
+	in, out  *vWorld
+	seen     map[vPair]bool
+	steps    int
+	why      string
+	verbatim bool // unresolvable references must be the same text on both sides
+}
+
+// lastRef: the $ref string at the end of the resolvable part of a chain starting at id
+func vLastRef(w *vWorld, id vNodeID) (string, bool) {
+	for hops := 0; hops < 32; hops++ {
+		n, ok := w.node(id)
+		if !ok {
+			return "", false
+		}
+		r, isRef := vRefOf(n)
+		if !isRef {
+			return "", false
+		}
+		nid, ok := vResolveRef(id.doc, r)
+		if !ok {
+			return r, true
+		}
+		if tn, ok := w.node(nid); !ok {
+			return r, true
+		} else if _, isObj := tn.(map[string]interface{}); !isObj {
+			return r, true
+		}
+		id = nid
+	}
+	return "", false
 }
 
 // deref follows $refs from node id until a non-reference node is reached (bounded by hops)
@@ -167,6 +193,24 @@ func vDeref(w *vWorld, id vNodeID) (vNodeID, interface{}, bool) {
 	return id, nil, false // a chain of pure references that never ends: not well-founded
 }
 
+// vNonSchemaHolder: the pointer addresses a parameter, response or path item (not a schema position)
+func vNonSchemaHolder(ptr string) bool {
+	toks := strings.Split(ptr, "/")
+	if len(toks) < 2 {
+		return false
+	}
+	switch toks[len(toks)-2] {
+	case "responses", "parameters", "paths":
+		return true
+	}
+	return false
+}
+
+func mustNode(w *vWorld, id vNodeID) interface{} {
+	n, _ := w.node(id)
+	return n
+}
+
 func (b *vBisim) eq(x, y vNodeID) bool {
 	b.steps++
 	if b.steps > 20000 {
@@ -175,11 +219,43 @@ func (b *vBisim) eq(x, y vNodeID) bool {
 	}
 	xd, xn, ok1 := vDeref(b.in, x)
 	yd, yn, ok2 := vDeref(b.out, y)
+	if b.verbatim {
+		// a reference to something that is not an object is as unresolvable as a dangling one
+		if ok1 {
+			if _, isRefHolder := vRefOf(mustNode(b.in, x)); isRefHolder {
+				if _, isObj := xn.(map[string]interface{}); !isObj {
+					ok1 = false
+				}
+			}
+		}
+		if ok2 {
+			if _, isRefHolder := vRefOf(mustNode(b.out, y)); isRefHolder {
+				if _, isObj := yn.(map[string]interface{}); !isObj {
+					ok2 = false
+				}
+			}
+		}
+	}
 	if !ok1 || !ok2 {
 		if ok1 != ok2 {
+			if b.verbatim && !ok1 && vNonSchemaHolder(x.ptr) {
+				return true
+			}
 			b.why = "a reference resolves on one side only: " + x.doc + "#" + x.ptr + " vs " + y.doc + "#" + y.ptr
+			return false
 		}
-		return ok1 == ok2
+		if b.verbatim && vNonSchemaHolder(x.ptr) {
+			return true // only schema $refs are required to stay verbatim; what replaces an unresolvable parameter / response / path item is not prescribed
+		}
+		if b.verbatim {
+			rx, okx := vLastRef(b.in, x)
+			ry, oky := vLastRef(b.out, y)
+			if !okx || !oky || rx != ry {
+				b.why = "an unresolvable $ref was rewritten: " + rx + " -> " + ry
+				return false
+			}
+		}
+		return true
 	}
 	p := vPair{xd, yd}
 	if b.seen[p] {
